@@ -237,4 +237,189 @@ theorem pd_endBlock (m : MD) (k : BlockKind) : PD (α := α) m (endBlock (α := 
 macro_rules | `(tactic| pd_leaf) => `(tactic| with_reducible exact pd_endBlock _ _)
 
 
+/-! ### non-metadata events -/
+
+/-- an event that is not `Metadata`/front matter, and whose diagnostic (if it is a parser warning)
+    is a parse-stage one, leaves the metadata part and the metadata diagnostics untouched -/
+theorem pd_processEvent (m : MD) (env : Env) (input : Str) (ev : Ev α) (h : ev.isKey = false)
+    (hw : ∀ d, ev = .warning d → d.stage = .parse) :
+    PD (α := α) m (processEvent env input ev) := by
+  unfold processEvent
+  cases ev with
+  | warning d =>
+    apply PD.modify
+    intro s
+    rw [md_push s d]
+    simp [Diag.isMeta, hw d rfl, Col.md]
+  | frontMatter t => simp [Ev.isKey] at h
+  | metadata k v => simp [Ev.isKey] at h
+  | _ => pd
+
+/-! ### what a `Metadata` event does to the metadata part and the metadata diagnostics depends
+    only on them -/
+
+structure SD {β : Type} (f f' : A α β) : Prop where
+  run : ∀ s s', s.md = s'.md → (f s).1 = (f' s').1 ∧ (f s).2.md = (f' s').2.md
+
+theorem SD.pure {β : Type} (a : β) : SD (α := α) (pure a) (pure a) := ⟨fun _ _ h => ⟨rfl, h⟩⟩
+
+theorem SD.bind {β γ : Type} {f f' : A α β} {g g' : β → A α γ}
+    (hf : SD f f') (hg : ∀ a, SD (g a) (g' a)) : SD (f >>= g) (f' >>= g') := by
+  refine ⟨fun s s' h => ?_⟩
+  have h1 := hf.run s s' h
+  have h2 := (hg (f s).1).run (f s).2 (f' s').2 h1.2
+  have e1 : (f >>= g) s = g (f s).1 (f s).2 := rfl
+  have e2 : (f' >>= g') s' = g' (f' s').1 (f' s').2 := rfl
+  rw [e1, e2, ← h1.1]
+  exact h2
+
+theorem SD.get_bind {γ : Type} {g g' : Col α → A α γ}
+    (hg : ∀ s0 s0' : Col α, s0.md = s0'.md → SD (g s0) (g' s0')) :
+    SD ((get : A α (Col α)) >>= g) ((get : A α (Col α)) >>= g') :=
+  ⟨fun s s' h => (hg s s' h).run s s' h⟩
+
+theorem SD.modify (k : Col α → Col α) (h : ∀ s s', s.md = s'.md → (k s).md = (k s').md) :
+    SD (α := α) (modify k : A α PUnit) (modify k) := ⟨fun s s' hs => ⟨rfl, h s s' hs⟩⟩
+
+theorem sd_modify_pres (k : Col α → Col α) (h : ∀ s, (k s).md = s.md) :
+    SD (α := α) (modify k : A α PUnit) (modify k) :=
+  SD.modify k (fun s s' hs => by rw [h, h]; exact hs)
+
+/-- an update of metadata fields only (diagnostics untouched) -/
+theorem md_of_ms (k : Col α → Col α) (hd : ∀ s, (k s).diags = s.diags)
+    (hm : ∀ s s', s.ms = s'.ms → (k s).ms = (k s').ms) :
+    ∀ s s' : Col α, s.md = s'.md → (k s).md = (k s').md := by
+  intro s s' h
+  have h1 := congrArg MD.ms h
+  have h2 := congrArg MD.ds h
+  simp only [Col.md] at h1 h2 ⊢
+  rw [hd, hd, hm s s' h1, h2]
+
+macro "md_tac" : tactic => `(tactic| (
+  apply md_of_ms
+  · intro s; rfl
+  · ms_tac))
+
+theorem sd_apanic (site : String) : SD (α := α) (apanic site) (apanic site) := by
+  unfold apanic
+  apply sd_modify_pres
+  intro s; split <;> rfl
+theorem sd_push (d : Diag) : SD (α := α) (modify fun s => { s with diags := s.diags.push d } : A α PUnit)
+    (modify fun s => { s with diags := s.diags.push d }) := by
+  apply SD.modify
+  intro s s' h
+  rw [md_push, md_push]
+  have h1 := congrArg MD.ms h
+  have h2 := congrArg MD.ds h
+  simp only [Col.md] at h1 h2
+  rw [h1, h2]
+theorem sd_aerr (k : String) (l : List Span) : SD (α := α) (aerr k l) (aerr k l) := sd_push _
+theorem sd_awarn (k : String) (l : List Span) : SD (α := α) (awarn k l) (awarn k l) := sd_push _
+
+syntax "sdc_leaf" : tactic
+macro_rules | `(tactic| sdc_leaf) => `(tactic| with_reducible exact SD.pure _)
+macro_rules | `(tactic| sdc_leaf) => `(tactic| with_reducible exact sd_apanic _)
+macro_rules | `(tactic| sdc_leaf) => `(tactic| with_reducible exact sd_aerr _ _)
+macro_rules | `(tactic| sdc_leaf) => `(tactic| with_reducible exact sd_awarn _ _)
+macro_rules | `(tactic| sdc_leaf) => `(tactic| (with_reducible apply SD.modify) <;> md_tac)
+
+syntax "sdt" : tactic
+macro_rules | `(tactic| sdt) => `(tactic| repeat' (first
+  | intro _
+  | sdc_leaf
+  | dsimp only
+  | (with_reducible apply SD.get_bind
+     intro s0 s0' h
+     obtain ⟨h1, h2, h3, h4, h5, h6⟩ := ms_eq (Col.md_ms h)
+     try simp only [h3, h5])
+  | with_reducible apply SD.bind
+  | split))
+
+theorem sd_timeOverrideCheck (k : StdKey) : SD (α := α) (timeOverrideCheck (α := α) k) (timeOverrideCheck k) := by
+  unfold timeOverrideCheck; sdt
+macro_rules | `(tactic| sdc_leaf) => `(tactic| with_reducible exact sd_timeOverrideCheck _)
+
+theorem sd_metadataA (env : Env) (k v : Text) : SD (α := α) (metadataA (α := α) env k v) (metadataA env k v) := by
+  unfold metadataA; sdt
+
+/-! ### the fold -/
+
+/-- what the end of `parse_events` adds: the deprecation warning for old-style entries -/
+def endMD (m : MD) : MD :=
+  ⟨m.ms, m.ds ++ (if !m.ms.oldStyleUsed.isEmpty then
+      [⟨.warning, .analysis, "meta-deprecated", m.ms.oldStyleUsed⟩] else [])⟩
+
+theorem loop_output_md (env : Env) (input : Str) : ∀ (l : List (Ev α)) (s r : Col α),
+    (parseEventsLoop env input l s).output = some r → r.md = endMD (finalOf env input l s).md := by
+  intro l
+  induction l with
+  | nil =>
+    intro s r h
+    simp only [parseEventsLoop, Option.some.injEq] at h
+    rw [← h]
+    simp only [finalOf, List.foldl_nil]
+    split
+    · split
+      · rename_i h1 h2
+        rw [md_push]
+        simp [endMD, Col.md, Col.ms, Diag.isMeta, metaKind] at h2 ⊢
+        simp [h2]
+      · rename_i h1 h2
+        simp [endMD, Col.md, Col.ms] at h2 ⊢
+        simp [h2]
+    · split
+      · rename_i h1 h2
+        rw [md_push]
+        simp [endMD, Col.md, Col.ms, Diag.isMeta, metaKind] at h2 ⊢
+        simp [h2]
+      · rename_i h1 h2
+        simp [endMD, Col.md, Col.ms] at h2 ⊢
+        simp [h2]
+  | cons ev rest ih =>
+    intro s r h
+    cases ev with
+    | error d => simp [parseEventsLoop] at h
+    | _ =>
+      simp only [parseEventsLoop] at h
+      simpa [finalOf] using ih _ r h
+
+/-- a parser event whose diagnostic, if it is a warning, is a parse-stage one -/
+def WarnOK (ev : Ev α) : Prop := ∀ d, ev = .warning d → d.stage = .parse
+
+theorem final_keys_md (env : Env) (input : Str) : ∀ (l : List (Ev α)) (s s' : Col α), s.md = s'.md →
+    (∀ ev ∈ l, WarnOK ev) →
+    (finalOf env input l s).md = (finalOf env input (l.filter Ev.isKey) s').md := by
+  intro l
+  induction l with
+  | nil => intro s s' h _; exact h
+  | cons ev rest ih =>
+    intro s s' h hw
+    have hw' : ∀ e ∈ rest, WarnOK e := fun e he => hw e (List.mem_cons_of_mem _ he)
+    simp only [finalOf, List.foldl_cons, List.filter_cons]
+    cases hkey : ev.isKey with
+    | true =>
+      simp only [if_true, List.foldl_cons]
+      apply ih _ _ _ hw'
+      cases ev with
+      | metadata k v => exact ((sd_metadataA env k v).run s s' h).2
+      | frontMatter t =>
+        exact md_of_ms (fun s => { s with oldStyle := false, frontMatter := some t }) (fun _ => rfl)
+          (by ms_tac) s s' h
+      | _ => simp [Ev.isKey] at hkey
+    | false =>
+      simp only [Bool.false_eq_true, if_false]
+      apply ih _ _ _ hw'
+      exact ((pd_processEvent s.md env input ev hkey (hw ev (List.mem_cons_self ..))).run s rfl).trans h
+
+/-- two event lists with the same metadata-carrying events (and parse-stage warnings only): whenever
+    both analyses have output, the metadata parts AND the metadata diagnostics of the results agree -/
+theorem events_agree_md (env : Env) (input : Str) (l1 l2 : List (Ev α))
+    (hk : l1.filter Ev.isKey = l2.filter Ev.isKey)
+    (hw1 : ∀ ev ∈ l1, WarnOK ev) (hw2 : ∀ ev ∈ l2, WarnOK ev)
+    (r1 r2 : Col α) (h1 : (parseEvents env input l1).output = some r1)
+    (h2 : (parseEvents env input l2).output = some r2) : r1.md = r2.md := by
+  unfold parseEvents at h1 h2
+  rw [loop_output_md env input l1 _ r1 h1, loop_output_md env input l2 _ r2 h2,
+    final_keys_md env input l1 _ _ rfl hw1, final_keys_md env input l2 _ _ rfl hw2, hk]
+
 end Cook
